@@ -102,6 +102,13 @@ def coq_build(jobs=16, timeout=1500):
 THEOREM_RE = re.compile(r"^\s*(Theorem|Lemma|Example|Corollary)\s+([A-Za-z0-9_']+)", re.M)
 
 
+def coqchk(pid, timeout=1800):
+    """independent re-check of Props/<pid>.vo and everything it depends on; lists the axioms"""
+    rc, out, dt = run(["coqchk", "-silent", "-o", "-Q", ".", "PCD", "PCD.Props.%s" % pid], timeout, cwd=COQ)
+    m = re.search(r"\* Axioms:(.*?)\n\s*\n", out, re.S)
+    return {"ok": rc == 0, "axioms": (m.group(1).strip() if m else "?"), "wall_s": round(dt, 1), "tail": out[-1200:]}
+
+
 def props_check(pid, timeout=600):
     """Compile Props/<pid>.v from scratch; returns obligations, discharged, assumptions, log."""
     path = os.path.join(COQ, "Props", pid + ".v")
